@@ -46,6 +46,7 @@ structure RuleIR where
   opt : List (Nat × Nat)
   line : Nat
   tree : Option (List Opt.Elem) := none
+  ifs : List Expr := []          -- conditions of the enclosing if / elseif / else branches (conjunction), feature tests
 deriving Repr, Inhabited
 
 structure PassIRj where
@@ -196,7 +197,9 @@ def parseRule (j : Json) : Except String RuleIR := do
   let line ← jNat (j.getObjValD "line") <|> pure 0
   let tj := j.getObjValD "tree"
   let tree ← if tj.isNull then pure none else some <$> (← tj.getArr?).toList.mapM parseElem
-  return { items, caret, opt, line, tree }
+  let ij := j.getObjValD "ifs"
+  let ifs ← if ij.isNull then pure [] else (← ij.getArr?).toList.mapM parseExpr
+  return { items, caret, opt, line, tree, ifs }
 
 def parseProgIR (text : String) : Except String ProgIR := do
   let j ← Json.parse text
